@@ -27,7 +27,7 @@ DRIVER_MODULES = ["PsutilModel.Model.C19Gen", "PsutilModel.Model.C19Dir", "Psuti
                   "PsutilModel.Spec.C19Dir"]
 NEEDS_EXT = True
 TRUSTED = [
-    "C19 redirect layer (harness/props/c19_redirect.py): glob.glob / os.listdir / os.sysconf / os.path.exists and open() as seen by psutil._pslinux / psutil._common are served from a temp root; an 'unreadable' file is an existing file whose open() raises PermissionError",
+    "C19 redirect layer (harness/props/c19_redirect.py): glob.glob / os.listdir / os.sysconf / os.path.exists and open() as seen by psutil._pslinux / psutil._common are served from a temp root; an 'unreadable' file is an existing file that fails in one of five ways chosen per case: open() raises EACCES or ENXIO, or the open succeeds and read()/iteration raises EIO, ENODATA or ENODEV (a file object handed out by the shim)",
     "C19 number syntax: float()/int() are modelled on optional blanks, optional sign, decimal digits, optional fraction (what the kernel prints); exponents, inf/nan, '_' separators and non-ASCII digits/blanks are outside the model and outside the generators",
     "C19 floats: the model computes exact rationals; the implementation's doubles are accepted within 1e-9 relative (secsleft: +-1 when the exact quotient is within 1e-9 of an integer; cpuinfo-derived MHz: 0.0011 absolute, int() of a double)",
     "C19 kernel formats: /proc/stat and /proc/cpuinfo renderers in Spec/C19.lean are transcriptions of fs/proc/stat.c and arch/x86/kernel/cpu/proc.c (fields psutil reads), the cpulist renderer in Spec/C19Cores.lean of the `%*pbl` bitmap format (Documentation/admin-guide/cputopology.rst: core_cpus_list); none is verified against the kernel",
@@ -35,11 +35,13 @@ TRUSTED = [
 ASSUMPTIONS = [
     "power-supply, hwmon and thermal names are ASCII; text files contain no \\x1c-\\x1f, U+0085, U+00A0 or other non-ASCII blanks (str.strip vs the byte-level model)",
     "policy directories are numbered with canonical decimals; at most one directory per number",
-    "the coretemp platform glob is modelled as found (its entries never yield a reading); layouts with coretemp files that are not also under /sys/class/hwmon do not exist on real kernels",
+    "the coretemp platform glob is modelled as found (its entries never yield a reading; a match suppresses the thermal fallback: C19_coretemp_as_found) and is OUTSIDE the specification: the refinement theorems assume that glob empty or a hwmon sensor listed; layouts with coretemp files that are not also under /sys/class/hwmon do not exist on real kernels",
+    "secsleft for a negative power figure is the formula's value (negative, possibly -1/-2): the statement defines seconds left as now/power*3600; characterised (C19_secsleft_sign, C19_secsleft_negative_collides), not judged",
+    "which cpuN/online file marks an offline CPU of a policy without frequency files is not fixed by the property: the specification is silent when the policy's position in the sorted list differs from its number",
 ]
 MANIFEST = {
-    "level_text": "Machine-checked Lean 4 proofs over an executable model of the Linux sensors/battery/cpu_freq/cpu_count/cpu_stats/boot_time code for EVERY abstract tree: the hwmon walker equals the declarative per-sensor view and never fails (C19_missing_reading_skipped_never_fails, C19_temp_scaling), thermal zones influence the result exactly when hwmon lists nothing (C19_fallback_iff, with C19_zones_ignored_when_hwmon_lists / C19_fallback_to_zones), zone thresholds are independent of the set-iteration order for every permutation (C19_zone_thresholds, with a proved counterexample for the code as found: conversions inside the loop), Fahrenheit and back-fill laws (C19_fahrenheit, C19_backfill, with a proved counterexample for the truthiness test), battery percent/plugged/secsleft/first-battery/None rules (C19_battery_refines and corollaries; clause by clause in C19_plugged_rules, C19_alternatives_rules, C19_secsleft_rules, end to end in C19_battery_kernel), cpu_freq kHz->MHz scaling, column means and None for no CPU for both module variants, cpu_count(logical=True) over its three sources (C19_cpu_count_logical_refines) and cpu_stats/boot_time as round trips through kernel-format renderers of /proc/cpuinfo and /proc/stat (text level), thermal-zone and hwmon directories at FILE-NAME level: every trip point the kernel names trip_point_<n>_{type,temp,hyst} (any number of digits) is in the set the walker iterates, the set holds nothing else, and for every iteration order the zone row is the row of the kernel's description (C19_zone_all_trip_points, C19_zone_trip_set, C19_trip_index, C19_zone_dir_refines, C19_zone_dir_critical; C19_hwmon_all_sensor_indices for temp<n>_/fan<n>_ files), battery selection = lexicographic minimum among the names that start with BAT or contain battery in any case, existence and uniqueness (C19_battery_name_rule, C19_battery_selection, C19_first_battery_exists_unique), blanks/newlines around a number or text are not seen (C19_whitespace_insensitive, C19_kernel_value_padded, C19_battery_reads_whitespace, C19_fans_whitespace), sign of seconds-left for negative power figures as a characterisation (C19_secsleft_sign, C19_secsleft_negative_collides), cpu_count(logical=False) = number of distinct sibling lists of the topology files under either file name, for any assignment of any number of CPUs to cores printed in the kernel's cpulist format (C19_cpu_count_cores_topology, C19_cpu_count_cores_kernel; the format is proved injective), else the package sum of a kernel-format /proc/cpuinfo, None when 0 (C19_cpu_count_cores_cpuinfo, C19_cpu_count_cores_none, C19_cpu_count_cores_refines). Tied to the code by translator facts (caught exception classes, placement of the /1000 conversions relative to the trip-point loop, constants, file-name alternatives and their order, name filter, enum values, the trip-point glob / split-join slice / file suffixes / type constants) feeding the proof obligation cfg_good, and by a differential run of the real front ends over redirected trees whose text files are the bytes printed by the Lean renderers.",
-    "level_note": "Trusted: Lean kernel + {propext, Classical.choice, Quot.sound}; the translator; the redirect layer and correspondence harness; Python number syntax restricted to the kernel's notation; doubles vs exact rationals within the stated tolerances.",
+    "level_text": "Machine-checked Lean 4 proofs over an executable model of the Linux sensors/battery/cpu_freq/cpu_count/cpu_stats/boot_time code for EVERY abstract tree: the hwmon walker equals the declarative per-sensor view and never fails (C19_temperatures_never_fail for every tree, C19_temperatures_refine / C19_missing_reading_skipped, C19_temp_scaling; the coretemp platform glob is outside the specification, its effect characterised in C19_coretemp_as_found), thermal zones influence the result exactly when hwmon lists nothing (C19_fallback_iff, with C19_zones_ignored_when_hwmon_lists / C19_fallback_to_zones), zone thresholds are independent of the set-iteration order for every permutation (C19_zone_thresholds, with a proved counterexample for the code as found: conversions inside the loop), Fahrenheit and back-fill laws (C19_fahrenheit, C19_backfill, with a proved counterexample for the truthiness test), fans per fan (C19_fans_rows_when_returns: whenever the call returns its rows are exactly the determined fans; C19_fans_error_only_on_silent_fan: it can raise only on a listed fan with a readable non-integer reading or an unreadable chip name; C19_fans_raise_iff_as_found as a characterisation; C19_none_when_absent_fans), battery percent/plugged/secsleft/first-battery/None rules (C19_battery_refines and corollaries; without any hypothesis on /sys/class/power_supply for the repaired source: C19_battery_refines_full_repaired, with the counterexample C19_battery_no_dir_counterexample for the source as found = known finding C19-battery-no-power-supply-dir; clause by clause in C19_plugged_rules, C19_alternatives_rules, C19_secsleft_rules, end to end in C19_battery_kernel), cpu_freq kHz->MHz scaling, column means and None for no CPU for both module variants, cpu_count(logical=True) over its three sources (C19_cpu_count_logical_refines) and cpu_stats/boot_time as round trips through kernel-format renderers of /proc/cpuinfo and /proc/stat (text level), boot_time() over HISTORIES of calls is never served from the module global (C19_boot_time_not_cached, counterexample for a caching variant, C19_boot_time_global_kept), thermal-zone and hwmon directories at FILE-NAME level: every trip point the kernel names trip_point_<n>_{type,temp,hyst} (any number of digits) is in the set the walker iterates, the set holds nothing else, and for every iteration order the zone row is the row of the kernel's description (C19_zone_all_trip_points, C19_zone_trip_set, C19_trip_index, C19_zone_dir_refines, C19_zone_dir_critical; C19_hwmon_all_sensor_indices for temp<n>_/fan<n>_ files), battery selection = lexicographic minimum among the names that start with BAT or contain battery in any case, existence and uniqueness (C19_battery_name_rule, C19_battery_selection, C19_first_battery_exists_unique), blanks/newlines around a number or text are not seen (C19_whitespace_insensitive, C19_kernel_value_padded, C19_battery_reads_whitespace, C19_fans_whitespace), sign of seconds-left for negative power figures as a characterisation (C19_secsleft_sign, C19_secsleft_negative_collides), cpu_count(logical=False) = number of distinct sibling lists of the topology files under either file name, for any assignment of any number of CPUs to cores printed in the kernel's cpulist format (C19_cpu_count_cores_topology, C19_cpu_count_cores_kernel; the format is proved injective), else the package sum of a kernel-format /proc/cpuinfo, None when 0 (C19_cpu_count_cores_cpuinfo, C19_cpu_count_cores_none, C19_cpu_count_cores_refines). Tied to the code by translator facts (caught exception classes, placement of the /1000 conversions relative to the trip-point loop, constants, file-name alternatives and their order, name filter, enum values, the trip-point glob / split-join slice / file suffixes / type constants) feeding the proof obligations cfg_good / cfg_names (file names, keys, glob patterns for hwmonN / thermal_zoneN / policyN of any number of digits, line tests; generated strings compared with the model's own byte constants) / cfg_cat (_common.cat catches OSError around open AND read) / cfg_boot_fresh, and by a differential run of the real front ends over redirected trees whose text files are the bytes printed by the Lean renderers.",
+    "level_note": "Theorems whose docstring starts with SPEC-ONLY (C19_reported_iff, C19_zone_spec_order_free, C19_first_battery, C19_secsleft_rules, C19_secsleft_sign, C19_secsleft_negative_collides, C19_cores_packages, C19_trip_index, C19_battery_name_examples, C19_first_battery_exists_unique) document the specification and do not constrain psutil; several specification functions (percentOf, secsleftOf, pluggedOf, freqList, countLogical) follow the statement clause by clause and therefore resemble the code: those refinement theorems are characterisations of the code against the statement's formulas, the independent parts are zoneThresh, firstBattery, distinctCount/cpuList, tripIndex?, the renderers and mean. Exact-rational theorems (C19_cpu_freq_end_to_end, C19_secsleft) hold of the Rat model; the doubles of the implementation are accepted within the stated tolerances. Trusted: Lean kernel + {propext, Classical.choice, Quot.sound}; the translator; the redirect layer and correspondence harness; Python number syntax restricted to the kernel's notation; doubles vs exact rationals within the stated tolerances.",
     "technique": "Lean 4 proofs (case analysis, list induction, permutation invariance, render->parse round trips of /proc/stat, /proc/cpuinfo and the cpulist format) over a model on abstract sysfs trees + translator-fed proof obligation + differential correspondence through a path-redirect layer with explicit set-order control and exhaustive small sub-domains",
     "design_ref": "DESIGN.md §5 C19",
 }
